@@ -45,8 +45,10 @@ type EnvState struct {
 	httpNext      []Value
 	acct          *acctEnv
 	selectNondet  bool
+	httpURLs      []string
 	onSleep       Value
 	inSleepHook   bool
+	nestedSleep   bool
 	timeNames     map[*Term]int
 }
 
@@ -563,13 +565,26 @@ func init() {
 		d := a[0].(*Term)
 		pos := in.tc.Ite(in.tc.Cmp(OpSLt, d, in.k64(0)), in.k64(0), d)
 		wake := in.tc.Bin(OpAdd, in.clockNow(), pos)
+		if in.env.inSleepHook {
+			in.env.nestedSleep = true
+		}
 		if f := in.env.onSleep; f != nil && !in.env.inSleepHook {
 			// the rest of the system keeps running while this goroutine sleeps: the harness may let (part of) the
 			// time pass and deliver events; afterwards the sleeper wakes at its deadline
 			in.env.inSleepHook = true
+			in.env.nestedSleep = false
 			in.call(fr, f, []Value{pos}, nil)
 			in.env.inSleepHook = false
-			in.assume(in.tc.Cmp(OpSLe, in.clockNow(), wake))
+			if !in.env.nestedSleep {
+				// the hook only let part of the time pass (its own assumption): the sleeper wakes at its deadline
+				in.env.now = wake
+				return nil
+			}
+			// whatever ran meanwhile may itself have slept past this sleeper's deadline: it wakes no earlier than
+			// its deadline and no earlier than now
+			now := in.clockNow()
+			in.env.now = in.tc.Ite(in.tc.Cmp(OpSLe, now, wake), wake, now)
+			return nil
 		}
 		in.env.now = wake
 		return nil
